@@ -27,8 +27,15 @@ func (P) ID() string { return "C15" }
 
 func (P) Facts() []core.Fact {
 	var fs []core.Fact
+	// only constants fixed by the persisted formats; in-memory flag bit values and buffer sizes that the
+	// hook also knows are internal and are not emitted (false-alarm audit, rule 1)
+	format := map[string]bool{"cstPayToPubKeyHash": true, "cstPayToScriptHash": true, "cstPayToPubKeyComp2": true,
+		"cstPayToPubKeyComp3": true, "cstPayToPubKeyUncomp4": true, "cstPayToPubKeyUncomp5": true,
+		"numSpecialScripts": true, "blockHdrSize": true, "hashSize": true}
 	for k, v := range blockchain.VerifConstsC15() {
-		fs = append(fs, core.Fact{Name: k, Value: v})
+		if format[k] {
+			fs = append(fs, core.Fact{Name: k, Value: v})
+		}
 	}
 	// opcodes the special forms are built from, read through the compiled package
 	fs = append(fs, core.Fact{Name: "vlqMaxU64", Value: hex.EncodeToString(blockchain.VerifPutVLQ(1<<64 - 1))})
@@ -281,9 +288,6 @@ func (P) Exec(line string) string {
 		}
 		l, err := blockchain.VerifDeserializeSpendJournalEntryRaw(in, txns)
 		if err != nil {
-			if _, ok := err.(blockchain.AssertError); ok {
-				return "assert"
-			}
 			return "err"
 		}
 		show := func() string {
